@@ -11,7 +11,7 @@
    scanning behaviour is compared on the implementation (harness c08). *)
 From Coq Require Import List NArith ZArith Bool.
 From YV Require Import Gen.CodecGen Codec.Reader Codec.ReaderProofs Codec.Varint Codec.VarintProofs
-  Codec.Universe Codec.UniverseProofs Codec.Header Codec.HeaderProofs Codec.RulesShape.
+  Codec.Universe Codec.UniverseProofs Codec.Header Codec.HeaderProofs Codec.RulesShape Codec.RulesShapeProofs.
 Import ListNotations.
 
 (* 1. truncation, for every decoder *)
@@ -107,6 +107,12 @@ Theorem rules_blob_prefix_rejected : forall v post k, wt rules_ty v = true -> po
   DErr (if Nat.ltb k data_offset then InvalidFormat else DecodeError Eof).
 Proof. exact (serialized_prefix_rejected_post rules_ty). Qed.
 Print Assumptions rules_blob_prefix_rejected.
+
+(* 8. the struct definitions in the source still carry exactly the serde attributes
+   the shape of Rules was written for, and every field has a shape *)
+Theorem rules_shape_matches_source : source_attrs_ok = true /\ mentions_unknown rules_ty = false.
+Proof. exact (conj source_attrs_unchanged every_field_has_a_shape). Qed.
+Print Assumptions rules_shape_matches_source.
 
 (* non-vacuity: an (empty) Rules value is well-typed, round-trips, and its
    prefixes are rejected in the two predicted ways; an altered version byte and a
